@@ -124,6 +124,7 @@ fn gen_multistep(rng: &mut Rng) -> Vec<Step> {
         let (w, h, text): (i32, i32, &str) = *rng.pick(&[
             (2, 2, "=A1:B2*10"), (1, 3, "=A1:A3*B1"), (2, 2, "={1,2;3,4}*A1"), (2, 2, "=A1:B2+B3"), (2, 1, "=A1:B1&\"x\""),
             (1, 3, "=IF(A1:A3>2,A1:A3,0)"), (2, 2, "=ABS(A1:B2)-A3"), (2, 3, "=A1:B3"), (2, 2, "=A1*2"), (1, 2, "=A1:A2/B1:B2"), (2, 2, "=-A2:B3"),
+            (2, 2, "=A1:B2*1E308"), (1, 2, "=A1:A2*1E308"), (2, 1, "=10^(A1:B1*200)"),   // elements overflow: stored #NUM! (guard in the array sinks)
         ]);
         if cse { v.push(Step::Cse(s, ar, ac, w, h, text.to_string())); } else { v.push(Step::Enter(s, ar, ac, text.to_string())); }
         areas.push((ar, ac, w, h));
@@ -183,6 +184,9 @@ fn main() {
              e(0, 2, 1, "20"), Step::Eval],
         vec![e(0, 1, 1, "2"), e(0, 2, 1, "4"), e(0, 5, 3, "=A1:A2*1"), e(0, 1, 3, "=C6"), e(0, 1, 4, "=SUM(C6:C6)"), e(0, 9, 1, "=C6"), Step::Eval,
              e(0, 2, 1, "20"), Step::Eval, e(0, 1, 1, "abc"), Step::Eval],
+        // array elements that overflow: the anchor / spill cells store #NUM!; a reader before a CSE anchor triggers its evaluation
+        vec![e(0, 1, 1, "=ISNUMBER(C5)"), e(0, 1, 2, "=ISNUMBER(D5)"), e(0, 1, 4, "=IFERROR(C5*0,7)"), Step::Cse(0, 5, 3, 2, 1, "={1E308,1}*10".into()), e(0, 9, 1, "=ISNUMBER(C5)"), Step::Eval, Step::Eval],
+        vec![e(0, 1, 1, "=ISNUMBER(C5)"), e(0, 1, 2, "=ISNUMBER(D5)"), e(0, 5, 3, "={1E308,1}*10"), e(0, 9, 1, "=ISNUMBER(C5)"), e(0, 9, 2, "=SUM(C5:D5)"), Step::Eval, Step::Eval],
     ];
     let ncorpus = corpus.len();
     for w in 0..(ncorpus + nwb) {
